@@ -25,6 +25,10 @@ type Sched struct {
 	ClockPct int      `json:"clock_pct,omitempty"` // percent chance per step to advance the simulated clock
 	ClockMs  []int    `json:"clock_ms,omitempty"`  // candidate advances in milliseconds
 	WmLeash  int      `json:"wm_leash,omitempty"`  // fairness leash of watermark goroutines (0 = 5 steps)
+	// LockYield: percent chance that a goroutine arriving at a hooked lock acquisition
+	// (db.lock, Sequence lock, merge operator lock, StreamWriter lock) yields although
+	// the lock is free, i.e. lock acquisitions become preemption points.
+	LockYield int `json:"lock_yield,omitempty"`
 }
 
 type parkedG struct {
@@ -303,7 +307,19 @@ func (e *Engine) waitLock(site string, try func() bool) {
 		return
 	}
 	if try() {
-		return
+		if e.sched.LockYield <= 0 || e.Sequential {
+			return
+		}
+		e.mu.Lock()
+		d, ok := e.nextDecision(100)
+		if !ok || d >= e.sched.LockYield || !e.active.Load() {
+			e.mu.Unlock()
+			return
+		}
+		e.Decisions++
+		e.mu.Unlock()
+		// fall through: park like a waiter; it is released only at a moment when the
+		// lock is free, and nobody else runs between its release and its Lock call
 	}
 	e.mu.Lock()
 	if !e.active.Load() {
